@@ -27,7 +27,7 @@ MIN = {"parse_name_post": (100000, 1000000), "reference_partition": (100000, 100
        "corpus_validation": (1, 1), "resplit_after_mutation": (2000, 20000)}
 FORBID = ["oracle_disagreement"]
 
-ALPHA = ["Aa", "bb", "Cc", "dd", "{Ee}", "{ff}", "{\\'E}x", "{\\'e}x", "1", "\\'E", "\\\\", " ", "~", ",", "{", "}", "e", "Y"]
+ALPHA = ["Aa", "bb", "\\Lx", "\\lX", "{Ee}", "{ff}", "{\\'E}x", "{\\'e}x", "1", "\\'E", "\\\\", " ", "~", ",", "{", "}", "e", "Y"]
 
 
 def _L(tier):
@@ -38,7 +38,7 @@ def exhaustive(tier):
     return f"all token sequences of length <= {_L(tier)} over {ALPHA!r}"
 
 
-WORDS = ["Aa", "bb", "Cc", "dd", "von", "de", "la", "Jr.", "III", "{Ee}", "{ff}", "{\\'E}x", "{\\'e}x", "1", "\\'E", "d'Aa", "{\\oe}x", "{von}", "Éa", "ça", "Strauß", "İz", "ﬁn", "ǅa", "ßa", "e", "y", "a", "ß", "O", "é",
+WORDS = ["Aa", "bb", "Cc", "dd", "von", "de", "la", "Jr.", "III", "{Ee}", "{ff}", "{\\'E}x", "{\\'e}x", "1", "\\'E", "d'Aa", "{\\oe}x", "{von}", "Éa", "ça", "Strauß", "İz", "ﬁn", "ǅa", "ßa", "e", "y", "a", "ß", "O", "é", "{}\\Lukasz", "{}\\lUkasz", "\\Lx", "x{}\\Ly", "{}",
          "A.", "b-C", "{A B}", "{a, b}", "\\\\", "x\\", "\\"]
 
 
@@ -98,6 +98,14 @@ def shape(name, ref):
     for sec in secs:
         pat.append("".join({1: "U", 0: "l", -1: "c"}[R.case(w)] for w in sec)[:6])
     return f"{len(secs)}:" + ",".join(pat)
+
+
+def setup(ctx):
+    from bibtexparser.middlewares import names as N
+    for v in ("A and B~and~C", "{x and y} and z", " ~ and ~ "):
+        sp.escape(lambda: N.split_multiple_persons_names(v))
+    lib = build.library([["entry", "article", "w", [["author", "A~B and C, D"]]]])
+    sp.escape(lambda: N.MergeCoAuthors().transform(N.SeparateCoAuthors().transform(lib)))
 
 
 def check(case, ctx):
